@@ -374,6 +374,7 @@ impl G2Affine {
         let mut raw = blst_p2_affine::default();
         let success =
             unsafe { blst_p2_deserialize(&mut raw, bytes.as_ptr()) == BLST_ERROR::BLST_SUCCESS };
+        let success = success && (bytes[0] & 0x80) == 0;
         CtOption::new(G2Affine(raw), Choice::from(success as u8))
     }
 
